@@ -126,8 +126,6 @@ type c08Owned struct {
 	files   map[string][]string // test -> standalone file names
 }
 
-var standaloneRe = regexp.MustCompile(`^(.*)_(\d+)\.snap(\..*)?$`)
-
 func c08Attribute(tree e3Tree, trace []string) c08Owned {
 	o := c08Owned{entries: map[string][]string{}, files: map[string][]string{}}
 	standaloneFiles := map[string]bool{}
